@@ -54,7 +54,7 @@ def run_one(m, tier, suite):
         if suite:
             t = subprocess.run(["go", "test", "-vet=off", "-count=1", pkg], cwd=root, env=ENV, stdout=subprocess.PIPE, stderr=subprocess.STDOUT, text=True, errors="replace")
             suite_res = "suite-pass" if t.returncode == 0 else "suite-FAIL"
-        env = dict(ENV, VERIF_REPO=root)
+        env = dict(ENV, VERIF_REPO=root, VERIF_EVIDENCE_DIR=os.path.join(root, ".verif-evidence"))
         r = subprocess.run([os.path.join(VERIF, "run"), m["prop"], tier], cwd=VERIF, env=env, stdout=subprocess.PIPE, stderr=subprocess.STDOUT, text=True, errors="replace")
         expect = 0 if m.get("equivalent") else 1
         verdict = "ok" if r.returncode == expect else "MISSED" if expect == 1 else "FALSE-ALARM"
@@ -99,13 +99,28 @@ def main():
             print(m["id"], m["prop"], m["file"], "EQUIV" if m.get("equivalent") else "", "-", m.get("note", ""))
         return
     bad = 0
+    rows = []
     for m in ms:
-        verdict, detail = run_one(m, tier, suite)
+        try:
+            verdict, detail = run_one(m, tier, suite)
+        except SystemExit as e:
+            verdict, detail = "BROKEN-MUTANT", str(e)
+        rows.append((m, verdict))
         print("%-28s %-5s %s" % (m["id"], m["prop"], verdict), flush=True)
         if not verdict.startswith("ok") or "MISMATCH" in verdict:
             bad += 1
             print("    " + detail.replace("\n", "\n    "))
     print("done: %d mutants, %d need attention" % (len(ms), bad))
+    md = os.environ.get("MUT_MD")
+    if md:
+        with open(md, "w") as f:
+            f.write("| mutant | property | file | what it does | expected | %s check | pinned suite |\n|---|---|---|---|---|---|---|\n" % tier)
+            for m, v in rows:
+                exp = "stays green (equivalent/control)" if m.get("equivalent") else "VIOLATION"
+                got = "exit 1 (caught)" if "exit=1" in v else "exit 0" if "exit=0" in v else v
+                suite_s = "passes" if "suite-pass" in v else "fails (control)" if "suite-FAIL" in v else "-"
+                note = (m.get("note") or (m["old"][:40].replace("\n", " ").replace("|", "/") + " -> " + m["new"][:40].replace("\n", " ").replace("|", "/"))).replace("|", "/")
+                f.write("| %s | %s | %s | %s | %s | %s%s | %s |\n" % (m["id"], m["prop"], m["file"], note, exp, got, "" if v.startswith("ok") else " **" + v.split()[0] + "**", suite_s))
 
 
 if __name__ == "__main__":
